@@ -135,6 +135,25 @@ func Canon(n *J) string {
 	return c.Text()
 }
 
+// Normalised applies to a rendering what EncodeTypedDataV4 deliberately writes into the
+// payload it is given: an empty EIP712Domain type when the type set has none, an empty
+// domain object when there is none.  Nothing else.
+func Normalised(n *J) *J {
+	c := n.Clone()
+	tn := c.Get("types")
+	if tn == nil {
+		tn = eip712ref.JObj()
+		c.Set("types", tn)
+	}
+	if tn.Kind == 'o' && tn.Get(eip712ref.DomainType) == nil {
+		tn.Set(eip712ref.DomainType, &J{Kind: 'a'})
+	}
+	if c.Get("domain") == nil {
+		c.Set("domain", eip712ref.JObj())
+	}
+	return c
+}
+
 // DomainDefaults returns the type set and domain object of the payload for HashStruct of
 // the domain: a document without an EIP712Domain type has the empty one, a document
 // without a domain object the empty object (the payload itself is left alone).
@@ -231,8 +250,12 @@ func setPath(td *eip712.TypedData, path []string, v interface{}, del bool) bool 
 // Options of RunSession.
 type Options struct {
 	Signer secp256k1.SignerDirect
-	// PayloadReadOnly: hashing must leave the four exported fields of the TypedData as they were.
-	PayloadReadOnly bool
+	// HashStruct: the exported HashStruct is part of what is judged (steps with Via "hashstruct",
+	// and the last hash of every variable).
+	HashStruct bool
+	// PayloadUnchanged: hashing must leave the four exported fields of the TypedData as they
+	// were, apart from the defaults EncodeTypedDataV4 fills in (see Normalised).
+	PayloadUnchanged bool
 	// CheckSignature (optional) judges a signing result against the digest (applied to the
 	// last signature of the session; all others are held against the digest only).
 	CheckSignature func(res *ethsigner.EIP712Result, digest []byte) []evid.Violation
@@ -336,7 +359,7 @@ func (r *sessionRun) judgeVar(step int, desc string, td *eip712.TypedData, via s
 			r.keep(step, "SignTypedDataV4 S", res.S)
 		}
 	case "hashstruct":
-		if ref.Status != eip712ref.OK {
+		if ref.Status != eip712ref.OK || !r.o.HashStruct {
 			break
 		}
 		// (a document without an EIP712Domain type / a domain object is hashed with the empty type / object)
@@ -358,14 +381,15 @@ func (r *sessionRun) judgeVar(step int, desc string, td *eip712.TypedData, via s
 			return append(vs, *pv)
 		}
 	}
-	// the payload belongs to the caller (its type set may be shared with other payloads)
-	if r.o.PayloadReadOnly {
+	// the payload belongs to the caller: apart from the documented defaults (see Normalised)
+	// hashing leaves it as it was
+	if r.o.PayloadUnchanged {
 		after, err := Snapshot(td)
 		if err != nil {
 			return append(vs, evid.V("payload-unchanged", "step %d (%s): the variable cannot be rendered after the call: %v", step, desc, err))
 		}
-		if a, b := Canon(after), Canon(before); a != b {
-			vs = append(vs, evid.V("payload-unchanged", "step %d (%s): hashing wrote into the caller's TypedData\nbefore: %s\nafter:  %s", step, desc, clipText(b), clipText(a)))
+		if a, b := Canon(Normalised(after)), Canon(Normalised(before)); a != b {
+			vs = append(vs, evid.V("payload-unchanged", "step %d (%s): hashing changed the caller's TypedData (beyond filling in the empty EIP712Domain type / domain object)\nbefore: %s\nafter:  %s", step, desc, clipText(b), clipText(a)))
 		}
 	}
 	return vs
